@@ -113,6 +113,34 @@ func BadF42() int {
 	return r.v
 }
 
+// the same with the known non-nil operand written on the LEFT, and with `==` (the branches exchanged): the operand
+// order must not matter to what is learnt on either edge
+func normLeft(p *S) *S {
+	if &sentinel != p {
+		return nil
+	}
+	return p
+}
+
+// BadF42Left dereferences normLeft(non-nil), which is nil.
+func BadF42Left() int {
+	r := normLeft(&S{})
+	return r.v
+}
+
+func normEqLeft(p *S) *S {
+	if &sentinel == p {
+		return p
+	}
+	return nil
+}
+
+// BadF42EqLeft dereferences normEqLeft(non-nil), which is nil.
+func BadF42EqLeft() int {
+	r := normEqLeft(&S{})
+	return r.v
+}
+
 // F43: append(t, s...) is nil for a nil t and an empty s; no contract may be inferred for dup
 func dup(s []*S) []*S {
 	if s == nil {
